@@ -41,42 +41,19 @@ pub fn is_ended_by<T: EbmlSpecification<T> + EbmlTag<T> + Clone>(current_id: u64
 
 #[inline(always)]
 pub fn validate_tag_path<T: EbmlSpecification<T> + EbmlTag<T> + Clone>(tag_id: u64, doc_path: impl Iterator<Item = (u64, EBMLSize, usize)>) -> bool {
-    let path = <T>::get_path_by_id(tag_id);
-    let mut path_marker = 0;
-    let mut global_counter = 0;
-    for item in doc_path {
-        let current_node_id = item.0;
+    let open_ids: Vec<u64> = doc_path.map(|item| item.0).collect();
+    path_matches(<T>::get_path_by_id(tag_id), &open_ids)
+}
 
-        if path_marker >= path.len() {
-            return false;
-        }
-
-        match path[path_marker] {
-            PathPart::Id(id) => {
-                if id != current_node_id {
-                    return false;
-                }
-                path_marker += 1;
-            },
-            PathPart::Global((min, max)) => {
-                global_counter += 1;
-                if max.is_some() && global_counter > max.unwrap_or_default() {
-                    return false;
-                }
-                if path.len() > (path_marker + 1) && matches!(path[path_marker + 1], PathPart::Id(id) if id == current_node_id) {
-                    if min.is_some() && global_counter < min.unwrap_or_default() {
-                        return false;
-                    }
-                    path_marker += 2;
-                    global_counter = 0;
-                }
-            },
-        }
+// A named parent matches exactly that open master; a global placeholder matches between min and max open masters of any kind.
+fn path_matches(path: &[PathPart], open_ids: &[u64]) -> bool {
+    match path.split_first() {
+        None => open_ids.is_empty(),
+        Some((PathPart::Id(id), rest)) => open_ids.first() == Some(id) && path_matches(rest, &open_ids[1..]),
+        Some((PathPart::Global((min, max)), rest)) => {
+            let min = min.unwrap_or(0).min(open_ids.len() as u64 + 1) as usize;
+            let max = max.unwrap_or(u64::MAX).min(open_ids.len() as u64) as usize;
+            (min..=max).any(|skipped| path_matches(rest, &open_ids[skipped..]))
+        },
     }
-
-    // Validate that we compared ALL parents in the path
-    path.len() == path_marker || 
-    // or that the last parent was a global whose minimum was met
-        ((path.len() - 1) == path_marker && matches!(path[path_marker], PathPart::Global((min, _)) if global_counter >= min.unwrap_or(0)))
-    
 }
